@@ -1,6 +1,7 @@
 import CoercionModel.Model.Sched
 import CoercionModel.Model.Skeletons
 import CoercionModel.Generated.F10
+import CoercionModel.Proofs.SchedEngine
 set_option linter.unusedSimpArgs false
 /-
   C02 — At most Block.Concurrency sequences in flight; one block at a time.
@@ -130,5 +131,13 @@ example : (run c {} t).map (·.failures) = some 2 := by decide
 theorem facts_skeleton :
     Generated.F10.executeSequences = Skeletons.executeSequences := by
   decide
+
+/-- bridge between the two models of the launch loop: the sequential schedule Model/Engine interprets (the
+    one compared exactly with the implementation) is a run of Model/Sched (whose invariants hold for every
+    schedule), and it ends with the failure count Engine computes -/
+theorem engine_schedule_is_sched_run (b : Nat) (tol : Int) (qs : List Engine.MSeq) (conc : Nat) (hc : 1 ≤ conc) :
+    ∃ s', Sched.run { n := qs.length, conc := conc, tol := tol } {} (SchedEngine.seqLabels tol (qs.map Engine.seqOk) 0) = some s' ∧
+      s'.pc = .exited ∧ s'.failures = (Engine.runSeqs b tol qs 0).2 :=
+  SchedEngine.engine_schedule_is_sched_run b tol qs conc hc
 
 end Coercion.C02
